@@ -17,7 +17,7 @@ SIGMA = {"SigmaValueError": 1, "SigmaPlaceholderError": 2, "SigmaTypeError": 3, 
 CRASH = {"ValueError": 1, "TypeError": 2, "AttributeError": 3, "KeyError": 4, "IndexError": 5,
          "NotImplementedError": 6, "UnboundLocalError": 7}
 COND_ERR = {"ph": 2, "gph": 2, "type": 1, "cond": 4}
-FINE = ("ok", "gok")
+FINE = ("ok", "gok", "same", "sel", "ma", "mb", "e1", "e2")
 
 
 def base_kind(c):
@@ -130,6 +130,39 @@ def stateful(quick):
     return out
 
 
+# rules of 2-4 conditions some of which convert to the same query (list form: one query per condition)
+EQ = [D(["ok", "same"]), D(["ok", "sel"]), D(["ma", "mb"]), D(["e1", "e2"]), D(["ok", "ok", "same"]),
+      D(["ok", "same", "sel", "same"]), D(["ma", "ok", "mb"]), D(["ok", "e1", "same", "e2"]), D(["gok", "same"]),
+      D(["ok", "nsame"]), D(["ma", "mb", "ma"]), D(["e1", "e2", "e1", "ok"])]
+EQ_FAIL = [D(["ok", "same", "ph"]), D(["ma", "mb"], "fin"), D(["ok", "same"], "pipe"), D(["ok", "sel", "cond"])]
+
+
+def equalq(quick):
+    """equal queries from different conditions of one rule (the same selection twice, a selector equal to an identifier,
+    fields mapped to one, values equal after finalisation only): alone, repeated, between failing neighbours at every
+    position, referred to by correlation rules, in all output formats and configurations"""
+    out = []
+    for x in EQ + EQ_FAIL:
+        for p in (True, False, "state"):
+            for f in ("test", "default", "state"):
+                for c in ((True,) if quick and f != "test" else (True, False)):
+                    out.append(mk([x], p, f, c))
+        out.append(mk([x], True, "test", True, noteq=True))
+    fails = [D(["ph"]), D(["ok"], "pipe"), D(["ok", "cond"]), D(["ok"], "fin")]
+    for x in EQ[:6] if quick else EQ:
+        for bad in fails[:2] if quick else fails:
+            for f in ("test", "state") if quick else ("test", "default", "state"):
+                for seq in ([x, bad], [bad, x], [bad, x, bad], [x, bad, x]):
+                    out.append(mk(seq, True, f, True))
+                out.append(mk([bad, x, BASIC[1]], True, f, False))
+            out.append(mk([bad, x, BASIC[1], x], False, "default", True))
+        for g in (True, False):
+            out.append(mk([x, Cr([0], g), BASIC[0]], True, "test", True))
+            out.append(mk([x, D(["ph"]), Cr([0, 1], g), Cr([0], not g)], True, "state", True, fcs=g))
+        out.append(mk(dup_rule([x, BASIC[0]], 0, 2), True, "test", True))
+    return out
+
+
 def duplicates(quick):
     """the same document repeated (equal rule objects, distinct identity): fine and failing rules 2-3 times, adjacent
     and with other rules in between, in every position; a repeated rule that correlation rules refer to (the
@@ -210,6 +243,8 @@ def random_rule(rng, pipe, pfail):
             r["stage"] = "crash"
         return r
     n = rng.choice([1, 1, 2, 2, 3])
+    if rng.random() < 0.15:
+        return copy.deepcopy(rng.choice(EQ))
     if rng.random() < 0.3:
         return D([rng.choice(["ok", "nok", "gok", "ngok"]) for _ in range(n)], form=rng.choice(["list", "and"]))
     return D(["ok"] * n, form=rng.choice(["list", "list", "and", "or", "1of"]))
@@ -337,6 +372,8 @@ def gen(tier, rng):
                         out.append(mk(list(t) + [Cr(refs, g), Cr([n, 0], g, "ok")], True, "default", True, fcs=not g))
     # 3b. correlation rules interleaved with detection rules
     out += interleaved(quick)
+    # 3f. equal queries from different conditions of one rule
+    out += equalq(quick)
     # 3e. repeated documents
     out += duplicates(quick)
     # 3d. decisions on per-rule pipeline state
@@ -376,8 +413,10 @@ def rule_fields(r):
     out = set()
     for c in r["conds"]:
         b = base_kind(c)
-        if b in ("ok", "ph", "cond"):
+        if b in ("ok", "ph", "cond", "e1", "e2"):
             out.add(name)
+        elif b in ("ma", "mb"):
+            out.add("s" + b[1])
         elif b in ("gok", "gph"):
             out |= {name, "y"}
     return out
@@ -513,7 +552,7 @@ def mutate(c, rng):
             d["rules"][i]["gen"] = not d["rules"][i]["gen"]
             out.append(d)
         else:
-            for conds in (["ok"], ["ph"], ["ok", "ok"], ["ok", "cond"], ["nph"], ["nok"], ["ngph"]):
+            for conds in (["ok"], ["ph"], ["ok", "ok"], ["ok", "cond"], ["nph"], ["nok"], ["ngph"], ["ok", "same"], ["ma", "mb"]):
                 d = copy.deepcopy(c)
                 d["rules"][i]["conds"] = conds
                 out.append(d)
@@ -558,13 +597,16 @@ PROPERTY = Property(
          "correlation rules; a pipeline whose items decide on per-rule pipeline state (strict_field_mapping_failure behind a product-conditional "
          "mapping, rule_failure behind a processing-state condition and behind an applied-item condition, output format 'state' showing "
          "the state): every sequence of length <= 2 over 11 rule kinds and of length 3 (thorough also 4) over the first 5 (8), with "
-         "correlation rules; repeated documents (equal rule objects with their own identity): 8 fine / failing rule kinds 2-3 times, adjacent and "
+         "correlation rules; rules of 2-4 conditions some of which convert to the same query (the same selection twice, a selector meaning an "
+         "identifier, fields mapped to one, values equal after the query post-processing only): alone in all 3 pipelines x 3 output "
+         "formats x both modes, between failing neighbours at every position, referred to by correlation rules, repeated; "
+         "repeated documents (equal rule objects with their own identity): 8 fine / failing rule kinds 2-3 times, adjacent and "
          "with other rules in between in every position, repeated rules that correlation rules refer to, repeated correlation rules "
          "(also nested, failing at pipeline / finalisation / through what they refer to), under the state pipeline; error records and "
          "references are identified by object identity = position; random collections of 1..6 rules + up to 3 correlation rules at "
          "random dependency-respecting positions, a quarter of them with a rule repeated once or twice. Oracle: fresh backend, fresh pipeline, freshly parsed rule for every rule on its "
          "own. Only dependency-respecting document orders (a correlation rule after the rules it names; other orders are C09). "
-         "non-trivial = some rule fails or a correlation rule is present; distinct by case hash",
+         "non-trivial = some rule fails, a correlation rule is present or a rule has several conditions; distinct by case hash",
     assumptions=["per-rule conversion (pipeline application, condition conversion, finish_query) is a parameter of the theorems; the "
                  "judge instantiates it with the raw queries observed in a fresh single-rule conversion and the failure class read off "
                  "the rule source",
